@@ -53,7 +53,7 @@ func progressOf(r *Run) string {
 }
 
 func lsScenario(seed uint64, rig string, hs []interface{}) *scn.Scenario {
-	return &scn.Scenario{Seed: seed, Profile: "ls-" + rig, Args: []string{}, Rig: map[string]interface{}{"rig": rig, "histories": hs},
+	return &scn.Scenario{Seed: seed, Profile: "ls-" + rig, Args: []string{}, Rig: map[string]interface{}{"rig": rig, "histories": hs, "cpu_s": float64(120)},
 		Config: scn.Config{K: "00000000000000000000000000000000", OPC: "00000000000000000000000000000000", MCC: "001", MNC: "01", IMSI: "001010000000001"}}
 }
 
@@ -447,6 +447,7 @@ func checkC14(c *Ctx) {
 		delete(s.Rig, "histories")
 		s.Rig["corpus"] = part
 		s.Rig["multi"] = multi
+		s.Rig["cpu_s"] = float64(240) // ~10^5 decodes per process take seconds; an endless loop is still stopped
 		s.Rig["no_shrink"] = true
 		s.Quiet = false
 		jobs = append(jobs, Job{S: s, Rig: "ls", Judge: "ls", Tag: "c14-fault-enumeration"})
